@@ -346,7 +346,9 @@ impl<'a> FamVisitor for RVisit<'a> {
             2 => largest_ok.saturating_sub(1),
             3 => 16,
             4 => 32 << 20,
-            9 => u32::MAX as usize,
+            // "no limit" on the reading side is 64 MiB, not u32::MAX: a MUTATED reader that loses its place reads four
+            // arbitrary bytes as a length, and without any limit every such run would zero-fill gigabytes
+            9 => 64 << 20,
             _ => 512 * 1024,
         };
         let knob_at = if s.r_max_len_mode == 0 { 0 } else { s.r_knob_at as usize };
